@@ -73,6 +73,11 @@ def constructed(rng):
             out.append("toint %s %s" % (rng.choice(TYPES), G.fD(c, s)))
         for c in G.split_values(rng, s, 2):
             out.append("toint %s %s" % (rng.choice(TYPES), G.fD(c * rng.choice((1, -1)), s)))
+    # multiples of 10^n beyond 2^64 / 2^128 reduced modulo the word size
+    for c, n in G.wrapped_multiples():
+        for s in set((n, rng.randrange(1, 19))):
+            for sg in (1, -1):
+                out.append("toint %s %s" % (rng.choice(("i128", "u128", "i64", "u64", rng.choice(TYPES))), G.fD(sg * c, s)))
     # decision boundary of division-free divisibility tests (x * inverse(5^n) mod 2^w against floor((2^w - 1) / 5^n))
     for c, n in G.modinv_boundary_all(rng):
         for s in set((n, rng.randrange(1, 19))):
